@@ -519,6 +519,30 @@ func runC11once(c C11Case) (fails []vstat.Failure) {
 				}
 			}
 		}
+		if got && ret != nil {
+			// asked again, Shutdown answers the same question again: success only once everything is closed
+			ctx2, cancel2 := context.WithTimeout(context.Background(), 150*time.Millisecond)
+			t2 := time.Now()
+			ret2 := bare.Shutdown(ctx2)
+			took2 := time.Since(t2)
+			cancel2()
+			if ret2 == nil {
+				for i, cl := range clients {
+					if cl.gone {
+						continue
+					}
+					closed, _, _ := WaitClosed(cl.conn, cl.br, time.Second)
+					if !closed {
+						fails = append(fails, vstat.Failf(key("success-with-open-connection"), "a second Shutdown (the first had returned %v) returned nil after %v but connection %d (%s) is still open", ret, took2, i, cl.spec.Phase))
+					}
+					cl.gone = true
+				}
+			} else if !errors.Is(ret2, context.DeadlineExceeded) {
+				fails = append(fails, vstat.Failf(key("shutdown-error"), "a second Shutdown returned %v, its context's error is %v", ret2, context.DeadlineExceeded))
+			} else if took2 < 145*time.Millisecond {
+				fails = append(fails, vstat.Failf(key("shutdown-early-error"), "a second Shutdown returned %v after %v, before its 150ms deadline", ret2, took2))
+			}
+		}
 		if probe != nil {
 			closed, extra, _ := WaitClosed(probe, nil, 2*time.Second)
 			if len(extra) > 0 {
